@@ -26,6 +26,10 @@ def space(kind, n=2):
         return odl.ProductSpace(odl.rn(n), 2, weighting=2.0)
     if kind == 'rn1':
         return odl.rn(1)
+    if kind == 'rn2x2':                     # more than one axis: len(x) != x.size
+        return odl.rn((2, 2))
+    if kind == 'discr2x2':
+        return odl.uniform_discr([0, 0], [0.5, 1.0], (2, 2))
     raise ValueError(kind)
 
 
@@ -120,7 +124,7 @@ def positive(ctx, x):
 # --------------------------------------------------------------- built-ins
 frecipe('L1Norm', ALLS + ('pspace',), 'pl', [DEF + 'L1Norm', DEF + 'LpNorm'],
         value=lambda ctx, sp, x: v_l1(sp, x) if not hasattr(sp, 'spaces') else None)(lambda ctx, sp: S.L1Norm(sp))
-frecipe('L2NormSquared', ALLS + ('pspace',), 'pl', [DEF + 'L2NormSquared'],
+frecipe('L2NormSquared', ALLS + ('pspace', 'rn2x2', 'discr2x2'), 'pl', [DEF + 'L2NormSquared'],
         value=lambda ctx, sp, x: v_l2sq(sp, x))(lambda ctx, sp: S.L2NormSquared(sp))
 frecipe('L2Norm', ALLS, 'sqrt', [DEF + 'L2Norm', DEF + 'LpNorm'])(lambda ctx, sp: S.L2Norm(sp))
 frecipe('LinfNorm', ('rn', 'discr'), 'pl', [DEF + 'LpNorm'])(lambda ctx, sp: S.LpNorm(sp, float('inf')))
@@ -211,8 +215,10 @@ frecipe('L1Norm/wpspace', ('wpspace',), 'pl', [DEF + 'L1Norm'])(lambda ctx, sp: 
 frecipe('IndicatorSimplex', ('rn',), 'ind', [DEF + 'IndicatorSimplex'])(lambda ctx, sp: S.IndicatorSimplex(sp))
 frecipe('IndicatorSimplex/diam2', ('rn',), 'ind', [DEF + 'IndicatorSimplex'])(
     lambda ctx, sp: S.IndicatorSimplex(sp, diameter=2))
-frecipe('IndicatorSumConstraint', ('rn',), 'ind', [DEF + 'IndicatorSumConstraint'])(
+frecipe('IndicatorSumConstraint', ('rn', 'rn2x2', 'discr2x2'), 'ind', [DEF + 'IndicatorSumConstraint'])(
     lambda ctx, sp: S.IndicatorSumConstraint(sp))
+frecipe('IndicatorSumConstraint/value=3', ('rn', 'rn2x2'), 'ind', [DEF + 'IndicatorSumConstraint'])(
+    lambda ctx, sp: S.IndicatorSumConstraint(sp, sum_value=3.0))
 frecipe('MoreauEnvelope/L1', ('rn', 'discr'), 'pl', [DEF + 'MoreauEnvelope'], n=1)(
     lambda ctx, sp: S.MoreauEnvelope(S.L1Norm(sp), sigma=0.5))
 frecipe('Rosenbrock', ('rn',), 'pl', ['odl.solvers.functional.example_funcs.RosenbrockFunctional'])(
